@@ -6,8 +6,8 @@
      - reference types have character content (sweep over all data types) and a pattern specification;
      - the root element is not SHORT-NAME. *)
 From Coq Require Import Lia FMapPositive.
-From AV Require Import Base.Bytes Base.Outcome Hash.HashModel Tree.Heap Tree.Ops Tree.Script Tree.Index
-  Spec.SpecReal Tree.SpecWFReal Tree.CheckFn Regex.Regex Regex.Vexpr.
+From AV Require Import Base.Bytes Base.Outcome Hash.HashModel Tree.Heap Tree.Ops Tree.Script Tree.Inv Tree.Index Tree.Refs
+  Tree.IndexProofsBridge Spec.SpecReal Tree.SpecWFReal Tree.CheckFn Regex.Regex Regex.Vexpr.
 From AV.Gen Require Import RegexData XmlVexprs.
 Open Scope list_scope.
 Open Scope N_scope.
@@ -115,5 +115,15 @@ Proof.
     vm_compute in Hcs. injection Hcs as <-. destruct v as [e|s|u|f]; cbn [check_value] in Hck; try discriminate. eauto.
   - intros ed H. vm_compute in H. injection H as <-. cbn. discriminate.
 Qed.
+
+(* [F] the closed history theorem for the generated tables: every history of operations from the empty world whose
+   steps avoid the finding classes of C03/C04/C05 and the pending constructors (clean45, decidable along the history)
+   ends in a world with exact path index and exact referrer lists — for any name tables, any DFA tables of the
+   table-driven validators, any LATEST and any root attributes. *)
+Theorem C04_C05_history_real (tab_el tab_en : nametab) (LATEST : N) (root_attrs : list (N * cdata)) l w' :
+  clean45 RT tab_el tab_en cf LATEST root_attrs l empty_world = true ->
+  run_ops RT tab_el tab_en cf LATEST root_attrs l empty_world = Val w' ->
+  TreeFacts w' /\ Inv04 RT cf w' /\ Inv05 RT w'.
+Proof. apply C04_C05_reachable_partial. exact real_tables_ok. Qed.
 
 End Real.
